@@ -1,5 +1,308 @@
-import NibabelModel.Model.C11
-/-! Props/C11 — the property theorems for C11 (statements + proofs; helper lemmas live in Lemmas/). -/
+import NibabelModel.Lemmas.C11
+/-! Props/C11 — NIfTI extensions are preserved and never collide with the voxel data.
+
+  All statements are unbounded: every list of extensions, every content length and byte values, every int32
+  code, both byte orders, NIfTI-1 and NIfTI-2 (through `FmtOK`, discharged for the two GENERATED constant sets
+  by `formats_ok`), every data string and every explicit offset.  Guards are exactly the inputs the real writer
+  accepts: `ExtOK x` (esize and ecode fit int32, else OverflowError) and, for single files, non-empty data.
+  The size formula is the expression regenerated from `get_sizeondisk`; it is unfolded only in `size_ok`. -/
 namespace Nb.C11
+
+/-! ## the generated items -/
+
+/-- `get_sizeondisk` (generated from the source): a multiple of 16 that holds the 8-byte esize/ecode header and
+    the content, with less than 16 bytes of padding — for EVERY content length. -/
+theorem size_ok (n : Nat) :
+    Nb.Gen.C11.getSizeondisk (n : Int) % 16 = 0 ∧
+    (n : Int) + 8 ≤ Nb.Gen.C11.getSizeondisk (n : Int) ∧
+    Nb.Gen.C11.getSizeondisk (n : Int) < (n : Int) + 24 :=
+  sizeOnDisk_spec n
+
+example : Nb.Gen.C11.getSizeondisk 9 = 32 := by decide
+
+/-- The writer refuses exactly the records whose esize or ecode does not fit int32, and every content shorter
+    than 2^31 - 24 bytes with an int32 code is accepted. -/
+theorem size_ok_int32 (e : Endian) (x : Ext) :
+    ((∃ bytes, serializeExt e x = .ok bytes) ↔ ExtOK x) ∧
+    (inInt32 x.code → x.content.length + 24 ≤ 2147483648 → ExtOK x) := by
+  refine ⟨⟨fun ⟨bytes, h⟩ => ?_, fun h => ⟨_, serializeExt_ok e x h⟩⟩, ExtOK_of_small x⟩
+  by_cases hx : ExtOK x
+  · exact hx
+  · rw [serializeExt_err e x hx] at h; cases h
+
+example : ExtOK ⟨-7, [1, 2, 0]⟩ := by decide
+
+/-- constants of `Nifti1Header` / `Nifti2Header` as generated from the source: header block = `sizeof_hdr`,
+    default single-file offset = multiple of 16 with room for block + extender -/
+theorem formats_ok : FmtOK nifti1 ∧ FmtOK nifti2 := by decide
+
+/-- the extension code table (generated): codes are distinct and fit the int32 ecode field -/
+theorem codes_ok :
+    (Nb.Gen.C11.extensionCodes.map (·.1)).Nodup ∧ ∀ c ∈ Nb.Gen.C11.extensionCodes.map (·.1), inInt32 c := by
+  decide
+
+/-! ## byte level -/
+
+/-- int32 codec used for esize / ecode: decoding the four bytes written gives the value back, both byte orders -/
+theorem codec_roundtrip (e : Endian) (v : Int) (h : inInt32 v) :
+    ∃ a b c d, encI32 e v = [a, b, c, d] ∧ decI32 e a b c d = v :=
+  decI32_encI32 e v h
+
+example : inInt32 (-2147483648) := by decide
+
+/-- the writer's output for a list of records has exactly the length `get_sizeondisk` announces, a multiple of 16 -/
+theorem serialize_length (e : Endian) (xs : List Ext) (hok : AllOK xs) :
+    ∃ bytes, serializeExts e xs = .ok bytes ∧ (bytes.length : Int) = totalSize xs ∧ totalSize xs % 16 = 0 := by
+  obtain ⟨bytes, h, hl⟩ := serializeExts_ok e xs hok
+  exact ⟨bytes, h, hl, totalSize_mod16 xs⟩
+
+example : AllOK [⟨6, [104, 105]⟩, ⟨9998, []⟩] := by decide
+
+/-- the reader model is total for the right reason: on ANY bytes, `size` and byte order (pinned or repaired
+    logic) the recursion budget `bs.length + 1` is never exhausted — the outcome is a list or a HeaderDataError -/
+theorem reader_total (e : Endian) (bs : List Nat) (size : Int) :
+    parseExts e bs size ≠ .error .fuel ∧ parseExtsOrig e bs size ≠ .error .fuel :=
+  ⟨parse_no_fuel true e _ bs size (Nat.lt_succ_self _), parse_no_fuel false e _ bs size (Nat.lt_succ_self _)⟩
+
+/-- `ext_roundtrip`.  Reader after writer, any list of records, either byte order:
+    * single file: the records are followed by a zero gap of ANY length `g` (0 for a library-chosen offset)
+      and then arbitrary bytes `d` (the data), and the reader is given `size = Σ sizes + g`
+      (= `vox_offset - tell()`);
+    * pair: the records run to the end of the header file and `size < 0`.
+    The result is the list saved, each content stripped of trailing NULs (the pad bytes are indistinguishable
+    from NULs the content ends in). -/
+theorem ext_roundtrip (e : Endian) (xs : List Ext) (bytes : List Nat) (hok : AllOK xs)
+    (hser : serializeExts e xs = .ok bytes) :
+    (∀ (g : Nat) (d : List Nat),
+        parseExts e (bytes ++ (zeros g ++ d)) (totalSize xs + (g : Int)) = .ok (xs.map Ext.strip)) ∧
+    (∀ size : Int, size < 0 → parseExts e bytes size = .ok (xs.map Ext.strip)) :=
+  ⟨fun g d => parseExts_gap e xs bytes d g hok hser, fun size h => parseExts_eof e xs bytes size h hok hser⟩
+
+/-- contents that do not end in a NUL byte (in particular empty ones) come back exactly -/
+theorem ext_roundtrip_exact (e : Endian) (xs : List Ext) (bytes : List Nat) (hok : AllOK xs)
+    (hnt : ∀ x ∈ xs, NoTrailingNul x) (hser : serializeExts e xs = .ok bytes) :
+    (∀ (g : Nat) (d : List Nat), parseExts e (bytes ++ (zeros g ++ d)) (totalSize xs + (g : Int)) = .ok xs) ∧
+    (∀ size : Int, size < 0 → parseExts e bytes size = .ok xs) := by
+  have h := ext_roundtrip e xs bytes hok hser
+  rw [map_strip_of_noTrailing xs hnt] at h
+  exact h
+
+example : (∀ x ∈ [(⟨6, [104, 105]⟩ : Ext), ⟨-3, []⟩, ⟨40, [0, 0, 7]⟩], NoTrailingNul x) := by decide
+
+/-- "up to trailing NULs" is a projection: what a load returns has no trailing NULs, so a second save/load cycle
+    returns it exactly -/
+theorem ext_roundtrip_idempotent (xs : List Ext) :
+    (∀ x ∈ xs.map Ext.strip, NoTrailingNul x) ∧ (xs.map Ext.strip).map Ext.strip = xs.map Ext.strip := by
+  constructor
+  · intro x hx
+    obtain ⟨y, _, rfl⟩ := List.mem_map.mp hx
+    exact rstripNul_noTrailing y.content
+  · rw [List.map_map]
+    exact List.map_congr_left (fun x _ => strip_strip x)
+
+/-! ## file level: single file -/
+
+/-- `offset_ok`.  With the offset left to the library (`vox_offset` field 0) a save succeeds, the offset written
+    is `single_vox_offset + Σ get_sizeondisk`, a multiple of 16, and not less than header block + 4-byte
+    extender + the bytes of all extension records. -/
+theorem offset_ok (fmt : Fmt) (e : Endian) (xs : List Ext) (data : List Nat) (hf : FmtOK fmt) (hok : AllOK xs)
+    (hd : data ≠ []) :
+    ∃ f bytes, writeSingle fmt e xs 0 data = .ok f ∧ serializeExts e xs = .ok bytes ∧
+      (f.voxOffset : Int) = (fmt.singleOff : Int) + totalSize xs ∧
+      f.voxOffset % 16 = 0 ∧
+      fmt.hdrSize + 4 + bytes.length ≤ f.voxOffset := by
+  obtain ⟨bytes, hser, hl⟩ := serializeExts_ok e xs hok
+  obtain ⟨hw, _, hroom⟩ := writeSingle_ok fmt e xs 0 bytes data hf hok hser hd (Or.inl rfl)
+  have hnn := totalSize_nonneg xs
+  have hm := totalSize_mod16 xs
+  have hc : chosenOffset fmt xs 0 = ((fmt.singleOff : Int) + totalSize xs).toNat := rfl
+  obtain ⟨_, hf2, hf3⟩ := hf
+  refine ⟨_, bytes, hw, hser, ?_, ?_, hroom⟩
+  · show ((chosenOffset fmt xs 0 : Nat) : Int) = _
+    rw [hc]; omega
+  · show chosenOffset fmt xs 0 % 16 = 0
+    rw [hc]; omega
+
+example : FmtOK nifti1 ∧ AllOK [⟨6, [104, 105]⟩] ∧ ([7] : List Nat) ≠ [] := by decide
+
+/-- `small_offset_rejected`.  An explicit offset below `single_vox_offset + Σ sizes` is refused with
+    HeaderDataError — for ANY extension list (no validity guard needed: the check comes first). -/
+theorem small_offset_rejected (fmt : Fmt) (e : Endian) (xs : List Ext) (userOff : Nat) (data : List Nat)
+    (h0 : userOff ≠ 0) (hsmall : (userOff : Int) < (fmt.singleOff : Int) + totalSize xs) :
+    writeSingle fmt e xs userOff data = .error .headerData :=
+  writeSingle_small fmt e xs userOff data h0 hsmall
+
+example : (367 : Nat) ≠ 0 ∧ ((367 : Nat) : Int) < (nifti1.singleOff : Int) + totalSize [⟨6, [104, 105]⟩] := by
+  decide
+
+/-- `no_overlap`.  WHATEVER offset the user asked for: if a single-file save succeeds, the data start at or
+    after the end of the last extension record, and the bytes after the header block are exactly
+    extender ++ records ++ zero gap ++ data — no byte of an extension is overwritten by data. -/
+theorem no_overlap (fmt : Fmt) (e : Endian) (xs : List Ext) (userOff : Nat) (data : List Nat) (f : HFile)
+    (hf : FmtOK fmt) (hok : AllOK xs) (hd : data ≠ []) (hw : writeSingle fmt e xs userOff data = .ok f) :
+    ∃ bytes, serializeExts e xs = .ok bytes ∧
+      fmt.hdrSize + 4 + bytes.length ≤ f.voxOffset ∧
+      f.after = (if xs.isEmpty then [0, 0, 0, 0] else [1, 0, 0, 0]) ++ bytes ++
+                  zeros (f.voxOffset - (fmt.hdrSize + 4 + bytes.length)) ++ data := by
+  obtain ⟨bytes, hser, hl⟩ := serializeExts_ok e xs hok
+  refine ⟨bytes, hser, ?_⟩
+  by_cases hoff : userOff = 0 ∨ minOffset fmt xs ≤ (userOff : Int)
+  · obtain ⟨hw', _, hroom⟩ := writeSingle_ok fmt e xs userOff bytes data hf hok hser hd hoff
+    rw [hw'] at hw
+    cases hw
+    exact ⟨hroom, rfl⟩
+  · have h0 : userOff ≠ 0 := fun h => hoff (Or.inl h)
+    have hs : (userOff : Int) < minOffset fmt xs := by omega
+    rw [writeSingle_small fmt e xs userOff data h0 hs] at hw
+    cases hw
+
+example : writeSingle nifti1 .le [⟨6, [104, 105]⟩] 400 [7] =
+    .ok ⟨400, [1, 0, 0, 0, 16, 0, 0, 0, 6, 0, 0, 0, 104, 105, 0, 0, 0, 0, 0, 0] ++ zeros 32 ++ [7]⟩ := by decide
+
+/-- `single_roundtrip`.  Save then load of a single file, offset chosen by the library (`userOff = 0`) or any
+    explicit offset not below the minimum: the load returns the extensions saved (contents up to trailing
+    NULs, same order, same codes), `dataobj.offset` is the offset written, and the data bytes are the ones saved. -/
+theorem single_roundtrip (fmt : Fmt) (e : Endian) (xs : List Ext) (userOff : Nat) (data : List Nat)
+    (hf : FmtOK fmt) (hok : AllOK xs) (hd : data ≠ [])
+    (hoff : userOff = 0 ∨ (fmt.singleOff : Int) + totalSize xs ≤ (userOff : Int)) :
+    ∃ f, writeSingle fmt e xs userOff data = .ok f ∧
+      (f.voxOffset : Int) = (if userOff = 0 then (fmt.singleOff : Int) + totalSize xs else (userOff : Int)) ∧
+      readSingle fmt e f data.length = .ok ⟨xs.map Ext.strip, f.voxOffset, data⟩ := by
+  obtain ⟨bytes, hser, hl⟩ := serializeExts_ok e xs hok
+  obtain ⟨hw, hmin, hroom⟩ := writeSingle_ok fmt e xs userOff bytes data hf hok hser hd hoff
+  have hnn := totalSize_nonneg xs
+  refine ⟨_, hw, ?_, ?_⟩
+  · show ((chosenOffset fmt xs userOff : Nat) : Int) = _
+    unfold chosenOffset minOffset
+    split <;> omega
+  · exact readSingle_layout fmt e xs bytes data _ hf hok hser hmin
+
+example : FmtOK nifti2 ∧ AllOK [⟨6, [104, 105, 0]⟩, ⟨-1, []⟩] ∧ ([7] : List Nat) ≠ [] ∧
+    ((nifti2.singleOff : Int) + totalSize [⟨6, [104, 105, 0]⟩, ⟨-1, []⟩] ≤ ((624 : Nat) : Int)) := by decide
+
+/-- `explicit_offset_roundtrip` (repaired logic).  At least one extension, explicit offset = minimum + a zero
+    gap of ANY length `g` (16, 32, … as well as lengths that are not multiples of 16): the file loads, with the
+    extensions and the data saved.  The pinned reader failed here for every `g ≥ 16`
+    (`ext_gap_orig_counterexample`). -/
+theorem explicit_offset_roundtrip (fmt : Fmt) (e : Endian) (xs : List Ext) (g : Nat) (data : List Nat)
+    (hf : FmtOK fmt) (hok : AllOK xs) (hne : xs ≠ []) (hd : data ≠ []) :
+    ∃ f, writeSingle fmt e xs (fmt.singleOff + (totalSize xs).toNat + g) data = .ok f ∧
+      f.voxOffset = fmt.singleOff + (totalSize xs).toNat + g ∧
+      readSingle fmt e f data.length = .ok ⟨xs.map Ext.strip, fmt.singleOff + (totalSize xs).toNat + g, data⟩ := by
+  have hnn := totalSize_nonneg xs
+  have h16 : 16 ≤ totalSize xs := by
+    cases xs with
+    | nil => exact absurd rfl hne
+    | cons x xs =>
+        have := sizeOnDisk_ge16 x.content.length
+        have := totalSize_nonneg xs
+        simp only [totalSize]; omega
+  obtain ⟨f, hw, hv, hr⟩ := single_roundtrip fmt e xs (fmt.singleOff + (totalSize xs).toNat + g) data hf hok hd
+    (Or.inr (by omega))
+  rw [if_neg (by omega)] at hv
+  have hv' : f.voxOffset = fmt.singleOff + (totalSize xs).toNat + g := by omega
+  exact ⟨f, hw, hv', by rw [hr, hv']⟩
+
+example : FmtOK nifti1 ∧ AllOK [⟨6, [104, 105]⟩] ∧ [(⟨6, [104, 105]⟩ : Ext)] ≠ [] := by decide
+
+/-! ## file level: header/image pair -/
+
+/-- `pair_roundtrip`.  Pair images: extensions live in the header file and are read to its end; any data
+    offset the user sets in the image file is honoured; extensions and data read back. -/
+theorem pair_roundtrip (fmt : Fmt) (e : Endian) (xs : List Ext) (userOff : Nat) (data : List Nat)
+    (hok : AllOK xs) (hd : data ≠ []) :
+    ∃ p, writePair e xs userOff data = .ok p ∧ p.hdr.voxOffset = userOff ∧
+      p.img = zeros userOff ++ data ∧
+      readPair fmt e p data.length = .ok ⟨xs.map Ext.strip, userOff, data⟩ := by
+  obtain ⟨bytes, hser, hl⟩ := serializeExts_ok e xs hok
+  have himg : writeAt [] userOff data = zeros userOff ++ data := by
+    rw [writeAt_past [] data userOff (by simp) hd]; simp
+  have hdrop : List.drop userOff (zeros userOff ++ data) = data :=
+    List.drop_left' (by simp [zeros])
+  have hchk : chkOffset false fmt userOff = .ok () := by
+    unfold chkOffset
+    by_cases h0 : userOff = 0
+    · rw [if_pos h0]
+    · rw [if_neg h0, if_neg (by simp)]
+  unfold writePair extBlock
+  cases xs with
+  | nil =>
+      simp only [List.isEmpty_nil, if_true, map_ok]
+      refine ⟨_, rfl, rfl, himg, ?_⟩
+      unfold readPair
+      simp only [hchk, bind_ok, himg, hdrop, readData_exact, map_ok]
+      rfl
+  | cons x xs =>
+      simp only [List.isEmpty_cons, Bool.false_eq_true, if_false, hser, map_ok]
+      refine ⟨_, rfl, rfl, himg, ?_⟩
+      unfold readPair
+      have hexts : readExtsAfter false fmt e ⟨userOff, [1, 0, 0, 0] ++ bytes⟩ = .ok ((x :: xs).map Ext.strip) := by
+        unfold readExtsAfter
+        simp only [List.cons_append, List.nil_append, List.take_succ_cons, List.take_zero,
+          List.drop_succ_cons, List.drop_zero]
+        rw [if_neg (by omega)]
+        simp only [Bool.false_eq_true, if_false]
+        exact parseExts_eof e (x :: xs) bytes (-1) (by omega) hok hser
+      simp only [hchk, bind_ok, hexts, himg, hdrop, readData_exact, map_ok]
+
+example : AllOK [⟨4, [1, 2, 3, 0, 0]⟩] ∧ ([9, 9] : List Nat) ≠ [] := by decide
+
+/-! ## independence of the data from the extensions -/
+
+/-- `data_independent`.  Single files: whatever two extension lists are saved with the same data (offsets
+    library-chosen or explicit and large enough for the respective list), the bytes of the data region on disk
+    (from `vox_offset` to the end of the file) and the data loaded are the same — namely the data saved. -/
+theorem data_independent (fmt : Fmt) (e₁ e₂ : Endian) (xs ys : List Ext) (o₁ o₂ : Nat) (data : List Nat)
+    (hf : FmtOK fmt) (hx : AllOK xs) (hy : AllOK ys) (hd : data ≠ [])
+    (h₁ : o₁ = 0 ∨ (fmt.singleOff : Int) + totalSize xs ≤ (o₁ : Int))
+    (h₂ : o₂ = 0 ∨ (fmt.singleOff : Int) + totalSize ys ≤ (o₂ : Int)) :
+    ∃ f₁ f₂ l₁ l₂, writeSingle fmt e₁ xs o₁ data = .ok f₁ ∧ writeSingle fmt e₂ ys o₂ data = .ok f₂ ∧
+      readSingle fmt e₁ f₁ data.length = .ok l₁ ∧ readSingle fmt e₂ f₂ data.length = .ok l₂ ∧
+      l₁.data = data ∧ l₂.data = data ∧
+      f₁.after.drop (f₁.voxOffset - fmt.hdrSize) = data ∧ f₂.after.drop (f₂.voxOffset - fmt.hdrSize) = data := by
+  obtain ⟨f₁, hw₁, _, hr₁⟩ := single_roundtrip fmt e₁ xs o₁ data hf hx hd h₁
+  obtain ⟨f₂, hw₂, _, hr₂⟩ := single_roundtrip fmt e₂ ys o₂ data hf hy hd h₂
+  refine ⟨f₁, f₂, _, _, hw₁, hw₂, hr₁, hr₂, rfl, rfl, ?_, ?_⟩
+  · obtain ⟨bytes, _, hle, hafter⟩ := no_overlap fmt e₁ xs o₁ data f₁ hf hx hd hw₁
+    rw [hafter]
+    exact List.drop_left' (by simp [zeros]; split <;> simp <;> omega)
+  · obtain ⟨bytes, _, hle, hafter⟩ := no_overlap fmt e₂ ys o₂ data f₂ hf hy hd hw₂
+    rw [hafter]
+    exact List.drop_left' (by simp [zeros]; split <;> simp <;> omega)
+
+example : FmtOK nifti1 ∧ AllOK [⟨6, [104, 105]⟩, ⟨32, [60, 0]⟩] ∧ AllOK [] ∧ ([1, 2] : List Nat) ≠ [] ∧
+    ((nifti1.singleOff : Int) + totalSize [⟨6, [104, 105]⟩, ⟨32, [60, 0]⟩] ≤ ((400 : Nat) : Int)) := by decide
+
+example : readSingle nifti1 .be ⟨400, [1, 0, 0, 0, 0, 0, 0, 16, 0, 0, 0, 6, 104, 105, 0, 0, 0, 0, 0, 0] ++ zeros 32 ++ [7]⟩ 1
+    = .ok ⟨[⟨6, [104, 105]⟩], 400, [7]⟩ := by decide
+
+/-- the same for pairs: the image file does not depend on the extension list at all -/
+theorem data_independent_pair (fmt : Fmt) (e₁ e₂ : Endian) (xs ys : List Ext) (off : Nat) (data : List Nat)
+    (hx : AllOK xs) (hy : AllOK ys) (hd : data ≠ []) :
+    ∃ p₁ p₂, writePair e₁ xs off data = .ok p₁ ∧ writePair e₂ ys off data = .ok p₂ ∧ p₁.img = p₂.img ∧
+      (readPair fmt e₁ p₁ data.length).map (·.data) = .ok data ∧
+      (readPair fmt e₂ p₂ data.length).map (·.data) = .ok data := by
+  obtain ⟨p₁, hw₁, _, hi₁, hr₁⟩ := pair_roundtrip fmt e₁ xs off data hx hd
+  obtain ⟨p₂, hw₂, _, hi₂, hr₂⟩ := pair_roundtrip fmt e₂ ys off data hy hd
+  exact ⟨p₁, p₂, hw₁, hw₂, by rw [hi₁, hi₂], by rw [hr₁]; rfl, by rw [hr₂]; rfl⟩
+
+example : AllOK [⟨4, [1]⟩] ∧ AllOK [⟨4, [1]⟩, ⟨-5, [0]⟩] ∧ ([1, 2] : List Nat) ≠ [] := by decide
+
+/-! ## the repaired defect -/
+
+/-- The pinned reader (no stop at a zero-size record) on the smallest failing file layout: one `comment`
+    extension "hi" (16 bytes on disk), a 16-byte zero gap, data; `size = 32`.  It raised
+    `HeaderDataError('failed to read extension content')`. -/
+theorem ext_gap_orig_counterexample :
+    serializeExts .le [⟨6, [104, 105]⟩] = .ok [16, 0, 0, 0, 6, 0, 0, 0, 104, 105, 0, 0, 0, 0, 0, 0] ∧
+    parseExtsOrig .le ([16, 0, 0, 0, 6, 0, 0, 0, 104, 105, 0, 0, 0, 0, 0, 0] ++ (zeros 16 ++ [1, 2, 3])) 32
+      = .error .headerData := by
+  decide
+
+/-- the repaired reader on the same bytes (instance of `ext_roundtrip`, kept next to the counterexample) -/
+theorem ext_gap_fixed_example :
+    parseExts .le ([16, 0, 0, 0, 6, 0, 0, 0, 104, 105, 0, 0, 0, 0, 0, 0] ++ (zeros 16 ++ [1, 2, 3])) 32
+      = .ok [⟨6, [104, 105]⟩] := by
+  decide
 
 end Nb.C11
